@@ -829,14 +829,21 @@ def sPanicf : Bytes := [112, 97, 110, 105, 99, 102]
 /-- "nilreply": the handler returns `(nil, nil)` -/
 def sNilReply : Bytes := [110, 105, 108, 114, 101, 112, 108, 121]
 
+/-- "/Ack": the handler of `C14Ack` has an interface return type and acknowledges without a message —
+`(nil, nil)`: `ProcessClientRequest` encodes the nil interface, `protobuf.Encode(nil)` is the empty
+message, which a client decodes to the zero reply.  (A typed nil pointer — `isNil` — is refused by
+the encoder instead.) -/
+def ackTag : Bytes := [47, 65, 99, 107]
+
 /-- `c14Transform(tag, a, s, b)`; `tag` is "/" followed by the handler's tag, as bytes -/
 def transform (tag : Bytes) (m : Msg) : HandlerResult Reply :=
   if m.s = sFail then .fail true
-  else if m.s = sNilReply then .ret { a := 0, s := [], b := [], n := 0, isNil := true }
+  else if m.s = sNilReply then .ret { a := 0, s := [], b := [], n := 0, isNil := tag ≠ ackTag }
   else if m.s = sPanic then .panics .str true
   else if m.s = sNil then .panics .err true
   else if m.s = sPanicErr then .panics .err true
   else if m.s = sPanicInt ∨ m.s = sPanicStruct ∨ m.s = sPanicf then .panics .other true
+  else if tag = ackTag then .ret { a := 0, s := [], b := [], n := 0 }
   else .ret { a := m.a, s := m.s ++ tag, b := m.b.reverse, n := m.s.length + m.b.length }
 
 /-! ### protobuf decoding of `Msg` as go.dedis.ch/protobuf does it (decode.go) -/
@@ -920,6 +927,7 @@ def concreteRegs : List (Reg Bytes) :=
    .ws "C14Swap" [47, 83, 119, 97, 112],                       -- "/Swap"
    .ws "C14Key" [47, 75, 101, 121],                            -- "/Key"
    .ws "C14Both" [47, 66, 111, 116, 104, 87, 115],             -- "/BothWs"
+   .ws "C14Ack" [47, 65, 99, 107],                             -- "/Ack"
    .rest "C14Post" [47, 80, 111, 115, 116],                    -- "/Post"
    .rest "C14Put" [47, 80, 117, 116],                          -- "/Put"
    .rest "C14Int" [47, 73, 110, 116],                          -- "/Int"
